@@ -45,7 +45,20 @@ def cache_key():
 
 
 def ensure_built(verbose=True):
-    """-> dict(ll=path, replay=path, key=sha, built=bool, build_s=float)."""
+    """-> dict(ll=path, replay=path, key=sha, built=bool, build_s=float).  Serialised by a lock file: concurrent callers
+    (pool workers, two checks started side by side) wait for the one build instead of racing on the cache directory."""
+    import fcntl
+
+    os.makedirs(CACHE, exist_ok=True)
+    with open(os.path.join(CACHE, ".lock"), "w") as lk:
+        fcntl.flock(lk, fcntl.LOCK_EX)
+        try:
+            return _ensure_built(verbose)
+        finally:
+            fcntl.flock(lk, fcntl.LOCK_UN)
+
+
+def _ensure_built(verbose=True):
     key = cache_key()
     d = os.path.join(CACHE, key)
     ll = os.path.join(d, "harness.ll")
@@ -56,7 +69,7 @@ def ensure_built(verbose=True):
     os.makedirs(d, exist_ok=True)
     # drop older cache entries (disk space)
     for old in glob.glob(os.path.join(CACHE, "*")):
-        if os.path.basename(old) != key:
+        if os.path.basename(old) != key and os.path.isdir(old):
             shutil.rmtree(old, ignore_errors=True)
     work = tempfile.mkdtemp(prefix="verif-rsym-")
     try:
